@@ -223,7 +223,7 @@ package controller
 // Synchronization context); the keys of `snapshots` are exactly the binding's includeSnapshotsFrom
 // names; contexts keep their order and identity.
 //@ func (*HookController).UpdateSnapshots
-//@   prop C02, C12
+//@   prop C02, C12, C09
 //@   modifies snapCount, snapOf, lastRefreshIn, lastRefreshOut
 //@   ghostset lastRefreshIn := context
 //@   ghostset lastRefreshOut := result
